@@ -26,7 +26,7 @@ func init() {
 				"A1: closing a non-blocking *os.File wakes a blocked Read with os.ErrClosed (Go runtime poller)",
 				"production folding: package variables with a single constant initialiser and no other writer are constants (re-verified on every run)",
 			},
-			MinObl: 6,
+			MinObl: 10,
 		},
 		// thorough also analyses the kqueue and FEN backends, which embed the same shared struct (send functions, done
 		// protocol, close()); the Windows backend uses a different request/reply protocol and is not covered.
